@@ -282,6 +282,12 @@ impl<'a> FnTr<'a> {
             match s {
                 Stmt::Local(l) => {
                     let init = l.init.as_ref().ok_or("let without init")?;
+                    // builder R: `let _ = x.set_a(..).set_b(..);` — a builder chain whose result is dropped
+                    if let (Pat::Wild(_), Expr::MethodCall(mc), true, true) = (&l.pat, &*init.expr, init.diverge.is_none(), !self.muts.is_empty()) {
+                        if self.builder_chain(mc, env, &mut st)? {
+                            continue;
+                        }
+                    }
                     // `let PAT = e?;` on an Option in an Option-returning function is
                     // `let Some(PAT) = e else { return None; };`
                     if init.diverge.is_none() && !self.reg.io.borrow().mode {
@@ -368,6 +374,13 @@ impl<'a> FnTr<'a> {
                         }
                         continue;
                     }
+                    // builder R: `let mut flag = 1 << (channel & 7);` — an integer expression whose type only its
+                    // literals leave open is typed by the first later statement that combines the variable with a
+                    // typed place (`self.0[index] |= flag`), as rustc's inference does
+                    let expect = match (&expect, &l.pat) {
+                        (None, Pat::Ident(pi)) if open_int_expr(&init.expr) => self.infer_from_uses(&pi.ident.to_string(), &stmts[i + 1..], env),
+                        _ => expect,
+                    };
                     let (term, ty) = self.ex(&init.expr, env, &mut st, expect.clone())?;
                     let ty = match (&ty, &expect) {
                         (Ty::IntLit, Some(e)) => e.clone(),
@@ -427,6 +440,19 @@ impl<'a> FnTr<'a> {
                             let tail = self.tail_expr(e, env, &mut st)?;
                             return Ok(Seq { stmts: st, tail });
                         }
+                        // builder R: `()` as a statement (the body of a `_ => ()` arm)
+                        Expr::Tuple(t) if t.elems.is_empty() => {}
+                        // builder R: `while let Some(x) = it.next() { body }` over an iterator the unit models as the
+                        // list of the items it yields (`continue`, `it.peek()` allowed in the body)
+                        Expr::While(w) if !self.muts.is_empty() => {
+                            self.while_let_loop(w, &stmts[..i], env, &mut st)?;
+                        }
+                        // builder R: `for i in a..b { body }` over an integer range
+                        Expr::ForLoop(f) if !self.muts.is_empty() => {
+                            self.for_range_loop(f, &stmts[..i], env, &mut st)?;
+                        }
+                        // builder R: a builder chain `x.set_a(..).set_b(..);` of `&mut self -> &mut Self` setters
+                        Expr::MethodCall(mc) if !self.muts.is_empty() && self.builder_chain(mc, env, &mut st)? => {}
                         // builder L: a statement-level `if` / `match` / block one of whose branches leaves the
                         // function: the rest of the block continues each branch (continuation duplicated)
                         Expr::If(ei) if !self.muts.is_empty() && contains_return(e) => {
@@ -490,6 +516,23 @@ impl<'a> FnTr<'a> {
                             let (base, _) = self.ex(&ix.expr, env, &mut st, None)?;
                             let (i, _) = self.ex(&ix.index, env, &mut st, Some(Ty::Int("usize")))?;
                             let (v, _) = self.ex(&a.right, env, &mut st, Some(el))?;
+                            let t = self.act(&mut st, format!("Rt.setIdx {} {} {}", paren(&base), paren(&i), paren(&v)));
+                            st.push((lean_ident(&root), Rhs::Pure(update_term(&lean_ident(&root), &fields, &t))));
+                        }
+                        // builder R: op-assignment through an index, `place[i] |= v` (out of bounds: a panic)
+                        Expr::Binary(b) if is_assign_op(&b.op) && matches!(&*b.left, Expr::Index(_)) => {
+                            let ix = match &*b.left {
+                                Expr::Index(ix) => ix,
+                                _ => unreachable!(),
+                            };
+                            let (root, fields, pty) = self.place(&ix.expr, env)?;
+                            let el = match &pty {
+                                Ty::Arr(el) => (**el).clone(),
+                                _ => return Err("index op-assignment on a non-array".into()),
+                            };
+                            let (v, _) = self.binop(&b.left, &assign_to_bin(&b.op), &b.right, env, &mut st, Some(el))?;
+                            let (base, _) = self.ex(&ix.expr, env, &mut st, None)?;
+                            let (i, _) = self.ex(&ix.index, env, &mut st, Some(Ty::Int("usize")))?;
                             let t = self.act(&mut st, format!("Rt.setIdx {} {} {}", paren(&base), paren(&i), paren(&v)));
                             st.push((lean_ident(&root), Rhs::Pure(update_term(&lean_ident(&root), &fields, &t))));
                         }
@@ -750,6 +793,302 @@ impl<'a> FnTr<'a> {
         }
     }
 
+    /// builder R: translate a loop body as a unit function whose `&mut` parameters are the loop-carried
+    /// variables: every exit (end of the body, `continue` rewritten to `return`) yields their tuple
+    fn loop_body(&mut self, stmts: &[Stmt], env: &Env, carried: &[String], extra: &[(String, Ty)]) -> Res<Seq> {
+        let saved_ret = std::mem::replace(&mut self.ret, Ty::Unit);
+        let saved_muts = std::mem::replace(&mut self.muts, carried.to_vec());
+        let mut env_b = env.clone();
+        for (n, t) in extra {
+            env_b.insert(n.clone(), t.clone());
+        }
+        let r = self.block_tail(stmts, &mut env_b);
+        self.ret = saved_ret;
+        self.muts = saved_muts;
+        let mut seq = r?;
+        let cs = carried.to_vec();
+        wrap_exits(&mut seq, &mut self.counter, &|v: &str| exit_term(v, true, &cs));
+        Ok(seq)
+    }
+
+    /// builder R: the variables a loop carries: `&mut` parameters and `let mut` locals of the enclosing block
+    /// that the body may assign (over-approximated as in `assigned_roots`)
+    fn loop_carried(&self, body: &Block, before: &[Stmt], env: &Env, skip: &str) -> Vec<String> {
+        let mut cands: Vec<String> = self.muts.iter().filter(|m| !m.is_empty()).cloned().collect();
+        for s in before {
+            if let Stmt::Local(l) = s {
+                let p = match &l.pat {
+                    Pat::Type(pt) => &*pt.pat,
+                    p => p,
+                };
+                if let Pat::Ident(pi) = p {
+                    if pi.mutability.is_some() {
+                        let n = pi.ident.to_string();
+                        if !cands.contains(&n) {
+                            cands.push(n);
+                        }
+                    }
+                }
+            }
+        }
+        cands.retain(|c| c != skip && env.contains_key(c));
+        let be = Expr::Block(ExprBlock { attrs: vec![], label: None, block: body.clone() });
+        let assigned = assigned_roots(&be, &cands);
+        cands.retain(|c| assigned.contains(c));
+        cands
+    }
+
+    fn while_let_loop(&mut self, w: &ExprWhile, before: &[Stmt], env: &mut Env, st: &mut Stmts) -> Res<()> {
+        // `let Some(x) = it.next()`
+        let (x, it) = match &*w.cond {
+            Expr::Let(l) => {
+                let x = match &*l.pat {
+                    Pat::TupleStruct(ts) if ts.path.is_ident("Some") && ts.elems.len() == 1 => match &ts.elems[0] {
+                        Pat::Ident(pi) => pi.ident.to_string(),
+                        _ => return Err("while let: the pattern is not `Some(x)`".into()),
+                    },
+                    _ => return Err("while let: the pattern is not `Some(x)`".into()),
+                };
+                let it = match &*l.expr {
+                    Expr::MethodCall(m) if m.method == "next" && m.args.is_empty() => match &*m.receiver {
+                        Expr::Path(p) if p.path.segments.len() == 1 => p.path.segments[0].ident.to_string(),
+                        _ => return Err("while let: the iterator is not a local variable".into()),
+                    },
+                    _ => return Err("while let: the scrutinee is not `it.next()`".into()),
+                };
+                (x, it)
+            }
+            _ => return Err("unsupported `while` loop (only `while let Some(x) = it.next()`)".into()),
+        };
+        let el = match env.get(&it) {
+            Some(Ty::Arr(el)) => (**el).clone(),
+            _ => return Err(format!("while let: {} is not an iterator the unit models as a list", it)),
+        };
+        let peek = format!("{}_peek", it);
+        // `continue` → `return`, `it.peek()` → the variable `it_peek`
+        struct Rw<'a> {
+            it: &'a str,
+            peek: &'a str,
+            bad: Option<String>,
+        }
+        impl<'a> syn::visit_mut::VisitMut for Rw<'a> {
+            fn visit_expr_mut(&mut self, e: &mut Expr) {
+                match e {
+                    Expr::Continue(c) => {
+                        if c.label.is_some() {
+                            self.bad = Some("labelled continue".into());
+                        }
+                        *e = parse_quote!(return);
+                        return;
+                    }
+                    Expr::Break(_) => self.bad = Some("`break` inside a translated loop".into()),
+                    Expr::Return(_) => self.bad = Some("`return` inside a translated loop".into()),
+                    Expr::While(_) | Expr::Loop(_) => self.bad = Some("nested while/loop".into()),
+                    Expr::MethodCall(m) if m.method == "peek" && m.args.is_empty() && matches!(&*m.receiver, Expr::Path(p) if p.path.is_ident(self.it)) => {
+                        let id = Ident::new(self.peek, proc_macro2::Span::call_site());
+                        *e = parse_quote!(#id);
+                        return;
+                    }
+                    Expr::Path(p) if p.path.is_ident(self.it) => self.bad = Some("the iterator is used inside the loop other than by `peek()`".into()),
+                    _ => {}
+                }
+                syn::visit_mut::visit_expr_mut(self, e);
+            }
+        }
+        let mut body = w.body.clone();
+        let mut rw = Rw { it: &it, peek: &peek, bad: None };
+        syn::visit_mut::VisitMut::visit_block_mut(&mut rw, &mut body);
+        if let Some(b) = rw.bad {
+            return Err(format!("while let: {}", b));
+        }
+        let carried = self.loop_carried(&body, before, env, &it);
+        if carried.is_empty() {
+            return Err("while let: the body assigns nothing".into());
+        }
+        // read-only variables of the enclosing scope the body mentions
+        struct Ids(Vec<String>);
+        impl<'ast> syn::visit::Visit<'ast> for Ids {
+            fn visit_expr_path(&mut self, p: &'ast ExprPath) {
+                if p.path.segments.len() == 1 {
+                    self.0.push(p.path.segments[0].ident.to_string());
+                }
+            }
+        }
+        let mut ids = Ids(vec![]);
+        syn::visit::Visit::visit_block(&mut ids, &body);
+        let mut ro: Vec<String> = ids.0.into_iter().filter(|n| env.contains_key(n) && !carried.contains(n) && *n != x && *n != peek && *n != it).collect();
+        ro.sort();
+        ro.dedup();
+        let extra = vec![(x.clone(), el.clone()), (peek.clone(), Ty::Opt(Box::new(el.clone())))];
+        let seq = self.loop_body(&body.stmts, env, &carried, &extra)?;
+        let fallible = seq.fallible();
+        let k = self.extra_defs.iter().filter(|d| d.contains(".while_step")).count();
+        let suffix = if k == 0 { String::new() } else { format!("{}", k + 1) };
+        let step = format!("{}.while_step{}", self.fn_prefix, suffix);
+        let lp = format!("{}.while_loop{}", self.fn_prefix, suffix);
+        let cty: Vec<Ty> = carried.iter().map(|c| env.get(c).cloned().unwrap()).collect();
+        let tuple_ty = ret_shape(&Ty::Unit, &cty).lean();
+        let ps = |names: &[String], env: &Env| names.iter().map(|n| format!("({} : {})", lean_ident(n), env.get(n).unwrap().lean())).collect::<Vec<_>>().join(" ");
+        let mut text = String::new();
+        text.push_str(&format!("/-- one iteration of the `while let Some({}) = {}.next()` loop of `{}` (`continue` = return of the carried variables; `{}` = `{}.peek()`) -/\n", x, it, self.fn_prefix, peek, it));
+        if fallible {
+            text.push_str(&format!("def {} {} {} ({} : {}) ({} : Option {}) : Option {} := ", step, ps(&ro, env), ps(&carried, env), lean_ident(&x), el.lean(), peek, el.lean(), tuple_ty));
+            render_m(&seq, 1, &mut text);
+        } else {
+            text.push_str(&format!("def {} {} {} ({} : {}) ({} : Option {}) : {} :=\n  ", step, ps(&ro, env), ps(&carried, env), lean_ident(&x), el.lean(), peek, el.lean(), tuple_ty));
+            render_p(&seq, 1, &mut text);
+        }
+        text.push('\n');
+        let ro_args = ro.iter().map(|n| lean_ident(n)).collect::<Vec<_>>().join(" ");
+        let c_args = carried.iter().map(|n| lean_ident(n)).collect::<Vec<_>>().join(" ");
+        let c_pats = carried.iter().map(|n| lean_ident(n)).collect::<Vec<_>>().join(", ");
+        let tup = tuple_of(&carried);
+        text.push_str(&format!("\n/-- the loop: the iterator is the list of the items it yields -/\ndef {} {} : List {} → {} → Option {}\n", lp, ps(&ro, env), el.lean(), cty.iter().map(|t| t.lean()).collect::<Vec<_>>().join(" → "), tuple_ty));
+        text.push_str(&format!("  | [], {} => some {}\n", c_pats, tup));
+        text.push_str(&format!("  | {} :: rest, {} => do\n", lean_ident(&x), c_pats));
+        if fallible {
+            text.push_str(&format!("    let {} ← {} {} {} {} rest.head?\n", tup, step, ro_args, c_args, lean_ident(&x)));
+        } else {
+            text.push_str(&format!("    let {} := {} {} {} {} rest.head?\n", tup, step, ro_args, c_args, lean_ident(&x)));
+        }
+        text.push_str(&format!("    {} {} rest {}\n", lp, ro_args, c_args));
+        self.extra_defs.push(text);
+        self.reg.helpers.borrow_mut().push(step);
+        st.push((tup, Rhs::Act(format!("{} {} {} {}", lp, ro_args, lean_ident(&it), c_args))));
+        st.push((lean_ident(&it), Rhs::Pure(format!("([] : List {})", el.lean()))));
+        Ok(())
+    }
+
+    fn for_range_loop(&mut self, f: &ExprForLoop, before: &[Stmt], env: &mut Env, st: &mut Stmts) -> Res<()> {
+        let r = match &*f.expr {
+            Expr::Range(r) if matches!(r.limits, RangeLimits::HalfOpen(_)) => r,
+            _ => return Err("unsupported `for` loop (only `for i in a..b`)".into()),
+        };
+        let (lo, hi) = match (&r.start, &r.end) {
+            (Some(a), Some(b)) => (a, b),
+            _ => return Err("for: open range".into()),
+        };
+        let (b, tb) = self.ex(hi, env, st, None)?;
+        let (a, ta) = self.ex(lo, env, st, if matches!(tb, Ty::Int(_)) { Some(tb.clone()) } else { None })?;
+        let ity = match (&ta, &tb) {
+            (_, Ty::Int(_)) => tb.clone(),
+            (Ty::Int(_), _) => ta.clone(),
+            _ => Ty::Int("i32"),
+        };
+        struct Bad(Option<String>);
+        impl<'ast> syn::visit::Visit<'ast> for Bad {
+            fn visit_expr(&mut self, e: &'ast Expr) {
+                match e {
+                    Expr::Continue(_) | Expr::Break(_) | Expr::Return(_) => self.0 = Some("continue/break/return inside a `for` body".into()),
+                    _ => syn::visit::visit_expr(self, e),
+                }
+            }
+        }
+        let mut bad = Bad(None);
+        syn::visit::Visit::visit_block(&mut bad, &f.body);
+        if let Some(b) = bad.0 {
+            return Err(format!("for: {}", b));
+        }
+        let carried = self.loop_carried(&f.body, before, env, "");
+        if carried.is_empty() {
+            return Err("for: the body assigns nothing".into());
+        }
+        let (iv, extra) = match &*f.pat {
+            Pat::Wild(_) => ("_i".to_string(), vec![]),
+            Pat::Ident(pi) => (lean_ident(&pi.ident.to_string()), vec![(pi.ident.to_string(), ity.clone())]),
+            _ => return Err("for: unsupported pattern".into()),
+        };
+        let seq = self.loop_body(&f.body.stmts, env, &carried, &extra)?;
+        let mut body = String::new();
+        if seq.fallible() {
+            render_m(&seq, 3, &mut body);
+        } else {
+            body.push_str("some (");
+            render_p(&seq, 3, &mut body);
+            body.push(')');
+        }
+        let tup = tuple_of(&carried);
+        st.push((tup.clone(), Rhs::Act(format!("Rt.forRangeM {} {} (fun {} {} => {}) {}", paren(&a), paren(&b), iv, tup, body, tup))));
+        Ok(())
+    }
+
+    /// builder R: `x.set_a(u).set_b(v)` as a statement, where every method of the chain is a registered
+    /// `&mut self` setter without a value (`-> &mut Self` in the source): the calls in order, each written back to `x`
+    fn builder_chain(&mut self, mc: &ExprMethodCall, env: &mut Env, st: &mut Stmts) -> Res<bool> {
+        let mut chain: Vec<&ExprMethodCall> = vec![mc];
+        let mut recv = &*mc.receiver;
+        while let Expr::MethodCall(inner) = recv {
+            chain.push(inner);
+            recv = &*inner.receiver;
+        }
+        if chain.len() < 2 {
+            return Ok(false);
+        }
+        let tn = match self.place(recv, env) {
+            Ok((_, _, Ty::Named(tn))) => tn,
+            _ => return Ok(false),
+        };
+        chain.reverse();
+        for (k, c) in chain.iter().enumerate() {
+            match self.reg.fns.get(&format!("{}::{}", tn, c.method)) {
+                // the last call of the chain may answer a value that the statement drops
+                Some(sig) if sig.muts == ["self".to_string()] && (sig.ret == Ty::Unit || k + 1 == chain.len()) => {}
+                _ => return Ok(false),
+            }
+        }
+        for c in chain {
+            let mut call = (*c).clone();
+            call.receiver = Box::new(recv.clone());
+            let _ = self.ex(&Expr::MethodCall(call), env, st, None)?;
+        }
+        Ok(true)
+    }
+
+    /// builder R: the integer type a later statement forces on the variable `x` (declared without a type and
+    /// initialised by literals only): the type of the place it is combined with or assigned to
+    fn infer_from_uses(&mut self, x: &str, rest: &[Stmt], env: &Env) -> Option<Ty> {
+        struct V<'a> {
+            x: &'a str,
+            found: Vec<Expr>,
+        }
+        impl<'a, 'ast> syn::visit::Visit<'ast> for V<'a> {
+            fn visit_expr_binary(&mut self, b: &'ast ExprBinary) {
+                let is_x = |e: &Expr| matches!(e, Expr::Path(p) if p.path.is_ident(self.x));
+                if !matches!(b.op, BinOp::Shl(_) | BinOp::Shr(_) | BinOp::ShlAssign(_) | BinOp::ShrAssign(_)) {
+                    if is_x(&b.right) {
+                        self.found.push((*b.left).clone());
+                    } else if is_x(&b.left) {
+                        self.found.push((*b.right).clone());
+                    }
+                }
+                syn::visit::visit_expr_binary(self, b);
+            }
+            fn visit_expr_assign(&mut self, a: &'ast ExprAssign) {
+                if matches!(&*a.right, Expr::Path(p) if p.path.is_ident(self.x)) {
+                    self.found.push((*a.left).clone());
+                }
+                syn::visit::visit_expr_assign(self, a);
+            }
+        }
+        let mut v = V { x, found: vec![] };
+        for s in rest {
+            syn::visit::Visit::visit_stmt(&mut v, s);
+        }
+        for e in v.found {
+            let t = match &e {
+                Expr::Index(ix) => match self.place(&ix.expr, env) {
+                    Ok((_, _, Ty::Arr(el))) => Some(*el),
+                    _ => None,
+                },
+                other => self.place(other, env).ok().map(|(_, _, t)| t),
+            };
+            if let Some(t @ Ty::Int(_)) = t {
+                return Some(t);
+            }
+        }
+        None
+    }
+
     /// builder L: an assignable place: (root variable, field chain, type of the place)
     fn place(&mut self, e: &Expr, env: &Env) -> Res<(String, Vec<String>, Ty)> {
         match e {
@@ -767,6 +1106,14 @@ impl<'a> FnTr<'a> {
                     (Member::Named(id), Ty::Named(sn)) => {
                         let fs = self.reg.structs.get(sn).ok_or(format!("field access on non-struct {}", sn))?;
                         let fname = id.to_string();
+                        let fty = fs.iter().find(|(n, _)| *n == fname).ok_or(format!("no field {} in {}", fname, sn))?.1.clone();
+                        fields.push(fname);
+                        Ok((root, fields, fty))
+                    }
+                    // builder R: the field of a newtype as a place (`self.0[i] = v`)
+                    (Member::Unnamed(ix), Ty::Named(sn)) => {
+                        let fs = self.reg.structs.get(sn).ok_or(format!("field access on non-struct {}", sn))?;
+                        let fname = ix.index.to_string();
                         let fty = fs.iter().find(|(n, _)| *n == fname).ok_or(format!("no field {} in {}", fname, sn))?.1.clone();
                         fields.push(fname);
                         Ok((root, fields, fty))
@@ -1383,15 +1730,23 @@ impl<'a> FnTr<'a> {
                     // (a bound error value is not put in scope: code that reads it does not translate)
                     // builder N: `Err(_)` of a `Result` translated as an `Option` (the error value is not bound)
                     Ok("none".into())
-                } else if ts.path.segments.len() >= 2 {
+                } else if ts.path.segments.len() >= 2 || matches!(ty, Ty::Named(tn) if self.reg.enum_data.get(tn).map(|vs| vs.iter().any(|(v, _)| *v == name)).unwrap_or(false)) {
                     // builder N: a variant with a payload of an enum the unit models (`EnumData`)
+                    // builder R: also named without its enum (`use DownlinkMacCommand::*`), and `V(..)`
                     let n = ts.path.segments.len();
-                    let (en, vn) = (ts.path.segments[n - 2].ident.to_string(), ts.path.segments[n - 1].ident.to_string());
+                    let (en, vn) = if n >= 2 {
+                        (ts.path.segments[n - 2].ident.to_string(), ts.path.segments[n - 1].ident.to_string())
+                    } else {
+                        (match ty { Ty::Named(tn) => tn.clone(), _ => unreachable!() }, name.clone())
+                    };
                     let en = if en == "Self" { self.self_ty.clone().unwrap_or_default() } else { en };
                     if !matches!(ty, Ty::Named(tn) if *tn == en) {
                         return Err(format!("pattern {} on {:?}", name, ty));
                     }
                     let tys = self.reg.enum_data.get(&en).and_then(|vs| vs.iter().find(|(v, _)| *v == vn)).map(|(_, t)| t.clone()).ok_or(format!("unsupported tuple-struct pattern {}", name))?;
+                    if ts.elems.len() == 1 && matches!(ts.elems[0], Pat::Rest(_)) {
+                        return Ok(format!(".{} {}", lean_ident(&vn), vec!["_"; tys.len()].join(" ")));
+                    }
                     if tys.len() != ts.elems.len() {
                         return Err(format!("pattern {}: arity", name));
                     }
@@ -1718,6 +2073,29 @@ impl<'a> FnTr<'a> {
                     return Ok((format!("({} {} {})", a, if is_and { "&&" } else { "||" }, b), Ty::Bool));
                 }
                 let n = self.fresh();
+                // builder R: the right operand may update variables in scope (a call with `&mut` arguments that is
+                // only evaluated when the left operand does not decide): they leave the branch with the value
+                let mut written: Vec<String> = vec![];
+                for (pat, _) in &st2 {
+                    for w in pat.split(|c: char| !(c.is_alphanumeric() || c == '_' || c == '«' || c == '»')) {
+                        let w = w.trim_matches(|c| c == '«' || c == '»');
+                        if !w.is_empty() && env.contains_key(w) && !written.contains(&w.to_string()) {
+                            written.push(w.to_string());
+                        }
+                    }
+                }
+                if !written.is_empty() {
+                    let tup = |v: &str| format!("({}, {})", v, written.iter().map(|w| lean_ident(w)).collect::<Vec<_>>().join(", "));
+                    let rhs_seq = Seq { stmts: st2, tail: Tail::Val(tup(&b)) };
+                    let const_seq = Seq { stmts: vec![], tail: Tail::Val(tup(if is_and { "false" } else { "true" })) };
+                    let tail = if is_and {
+                        Tail::If(a, Box::new(rhs_seq), Box::new(const_seq))
+                    } else {
+                        Tail::If(a, Box::new(const_seq), Box::new(rhs_seq))
+                    };
+                    st.push((tup(&n), Rhs::Br(Box::new(tail))));
+                    return Ok((n, Ty::Bool));
+                }
                 let rhs_seq = Seq { stmts: st2, tail: Tail::Val(b) };
                 let const_seq = Seq { stmts: vec![], tail: Tail::Val(if is_and { "false".into() } else { "true".into() }) };
                 let tail = if is_and {
@@ -2125,12 +2503,24 @@ impl<'a> FnTr<'a> {
             Expr::Path(p) => &p.path,
             _ => return Err("call of non-path".into()),
         };
-        let segs: Vec<String> = p.segments.iter().map(|s| s.ident.to_string()).collect();
+        let mut segs: Vec<String> = p.segments.iter().map(|s| s.ident.to_string()).collect();
+        // builder R: `super::f(..)` names the module-level function `f`
+        if segs.len() == 2 && ["super", "self", "crate"].contains(&segs[0].as_str()) && (self.reg.fns.contains_key(&segs[1]) || self.local_fns.contains_key(&segs[1])) {
+            segs.remove(0);
+        }
         let name = segs.join("::");
         if (name == "Ok" || name == "Err") && self.reg.io.borrow().mode {
             return crate::phyio::ok_err(self, &name, c, env, st, expect);
         }
-        if name == "Some" {
+        // builder R: constructing a `Result` whose error value is never inspected (builder N's reading:
+        // `Ok(x)` = `some x`, `Err(_)` = `none`)
+        if name == "Err" && c.args.len() == 1 {
+            return match &expect {
+                Some(t @ Ty::Opt(_)) => Ok(("none".to_string(), t.clone())),
+                _ => Err("`Err(..)` where no `Result` type is expected".into()),
+            };
+        }
+        if name == "Some" || name == "Ok" {
             let inner = match &expect {
                 Some(Ty::Opt(t)) => Some((**t).clone()),
                 _ => None,
@@ -2507,6 +2897,10 @@ impl<'a> FnTr<'a> {
                     return Err(format!("`.into()` from {} with unknown target", tn));
                 }
                 let key = format!("{}::{}", tn, name);
+                // builder R: `.clone()` of a modelled value is the value
+                if name == "clone" && m.args.is_empty() && !self.reg.fns.contains_key(&key) {
+                    return Ok((r, tr.clone()));
+                }
                 let sig = match self.reg.fns.get(&key).cloned() {
                     Some(s) => s,
                     None => self.method_on_demand(tn, &name)?,
@@ -2533,7 +2927,12 @@ impl<'a> FnTr<'a> {
             Ty::Arr(el) => match name.as_str() {
                 "is_empty" => Ok((format!("{}.isEmpty", paren(&r)), Ty::Bool)),
                 "len" => Ok((format!("(Int.ofNat {}.length)", paren(&r)), Ty::Int("usize"))),
-                "iter" => Ok((r, tr.clone())),
+                "iter" | "peekable" => Ok((r, tr.clone())),
+                // builder R: `it.filter_map(Result::ok)` on an iterator of `Result`s (modelled as a list of options)
+                "filter_map" if matches!(&**el, Ty::Opt(_)) && matches!(m.args.first(), Some(Expr::Path(p)) if path_str(&p.path) == "Result::ok") => match &**el {
+                    Ty::Opt(inner) => Ok((format!("(List.filterMap id {})", paren(&r)), Ty::Arr(inner.clone()))),
+                    _ => unreachable!(),
+                },
                 "find" => {
                     let cl = match m.args.first() {
                         Some(Expr::Closure(cl)) if cl.inputs.len() == 1 => cl,
@@ -2587,10 +2986,28 @@ impl<'a> FnTr<'a> {
     }
 }
 
+/// builder R: an integer expression whose type is left open by its literals (`1 << (c & 7)`, `0xff`, `!0`)
+fn open_int_expr(e: &Expr) -> bool {
+    match e {
+        Expr::Lit(ExprLit { lit: Lit::Int(i), .. }) => i.suffix().is_empty(),
+        Expr::Paren(p) => open_int_expr(&p.expr),
+        Expr::Unary(u) => matches!(u.op, UnOp::Not(_) | UnOp::Neg(_)) && open_int_expr(&u.expr),
+        Expr::Binary(b) => match b.op {
+            BinOp::Shl(_) | BinOp::Shr(_) => open_int_expr(&b.left),
+            BinOp::Add(_) | BinOp::Sub(_) | BinOp::Mul(_) | BinOp::Div(_) | BinOp::Rem(_) | BinOp::BitAnd(_) | BinOp::BitOr(_) | BinOp::BitXor(_) => open_int_expr(&b.left) && open_int_expr(&b.right),
+            _ => false,
+        },
+        _ => false,
+    }
+}
+
 fn unify(a: &Ty, b: &Ty) -> Res<Ty> {
     match (a, b) {
         (Ty::IntLit, Ty::Int(_)) => Ok(b.clone()),
         (Ty::Int(_), Ty::IntLit) => Ok(a.clone()),
+        // builder R: an untyped `None` (`Opt(IntLit)`) takes the type of the other branch
+        (Ty::Opt(x), Ty::Opt(_)) if **x == Ty::IntLit => Ok(b.clone()),
+        (Ty::Opt(_), Ty::Opt(y)) if **y == Ty::IntLit => Ok(a.clone()),
         (Ty::Opt(x), Ty::Opt(y)) => Ok(Ty::Opt(Box::new(unify(x, y)?))),
         (Ty::Tuple(xs), Ty::Tuple(ys)) if xs.len() == ys.len() => Ok(Ty::Tuple(xs.iter().zip(ys.iter()).map(|(x, y)| unify(x, y)).collect::<Res<Vec<_>>>()?)),
         _ if a == b => Ok(a.clone()),
